@@ -187,6 +187,11 @@ def register_prepare(reg):
                      result_fn=lambda ctx: ctx.data, raises={"FinamDataError": lambda ctx: z3.BoolVal(True)},
                      note="assumed: adds / checks the time axis and the grid shape, values and units unchanged (bounded stand-in bnd_prepare.py)"))
 
+    reg.add(Contract(f"{CORE}._mask_for", params={"data": Pay, "info": TRef("Info")}, pure=True, verify=False,
+                     result_fn=lambda ctx: ctx.get(ctx.info, "_mask"),
+                     note="assumed: the info's mask (payloads are opaque here; that the mask is laid out like a flat payload, i.e. in the "
+                          "grid's memory order, is checked by the bounded stand-in bnd_prepare.py - finding F18c)"))
+
     def info_units(ctx):
         meta = ctx.get(ctx.info, "meta")
         return meta.val(sv.const_str("units").e)
